@@ -1,0 +1,13 @@
+//go:build verif
+
+// Contracts for package numbers (numbers from template arguments), checked by /verif/govc. Comment-only: no code.
+package numbers
+
+// Integers of every width, unsigned values that fit, and decimal text; anything else is an error, never a fault or a wrap.
+//@ func ParseInt
+//@ props C13 C15
+//@ modifies nothing
+//@ ensures [plain-ints-as-they-are] imp(typeis(input, int), result1 == nil && result0 == input.(int)) && imp(typeis(input, int64), result1 == nil && result0 == input.(int64))
+//@ ensures [unsigned-values-must-fit] imp(typeis(input, uint64) && input.(uint64) > 9223372036854775807, result1 != nil) && imp(typeis(input, uint) && input.(uint) > 9223372036854775807, result1 != nil)
+//@ ensures [text-is-parsed-as-decimal] imp(typeis(input, string), calls(strconv.ParseInt) == 1 && iff(result1 != nil, result_of(strconv.ParseInt, 1) != nil) && imp(result1 == nil, result0 == result_of(strconv.ParseInt, 0)))
+//@ at call strconv.ParseInt assert arg(a0) == input.(string) && arg(a1) == 10 && arg(a2) == 64
